@@ -10,6 +10,7 @@ package dtls
 //symgo:outside what x509 does with the name (crypto_wrappers.go zzHcVerifyChain: it becomes VerifyOptions.DNSName, which crypto/x509 matches against IP SANs when it is an IP literal); the encoding of the server_name extension (C18)
 
 import (
+	"strings"
 	"crypto/x509"
 	"hash"
 
@@ -96,6 +97,10 @@ func zzSNConfigured(i int) string {
 		return "192.0.2.1"
 	case 2:
 		return "2001:db8::1"
+	case 4:
+		return strings.Repeat("a", 255) // longest DNS name by RFC 1035; still an ordinary string to the verifier
+	case 5:
+		return strings.Repeat("b", 300) + ".example" // too long for DNS: must still be the name that is verified, never ""
 	}
 
 	return ""
@@ -103,7 +108,7 @@ func zzSNConfigured(i int) string {
 
 // A client configured through the real option path - WithServerName(name), WithRootCAs(pool), then
 // newConnConfigValues (effectiveServerName) and newHandshakeConfig - for name = a DNS name ("example.com"), an
-// IPv4 literal ("192.0.2.1"), an IPv6 literal ("2001:db8::1") and the empty string. The resulting handshake
+// IPv4 literal ("192.0.2.1"), an IPv6 literal ("2001:db8::1"), the empty string and names of 255 and 308 octets. The resulting handshake
 // configuration is then given to the real DTLS 1.2 client authentication step (flight12.initializeCipherSuite,
 // run by flight5Generate) and to the real DTLS 1.3 one (protectedHandshakeFlight.verifyServerIdentity) with
 // handshakecrypto.VerifyServerCert replaced by a recorder. Proved: in both protocol versions the chain of the
@@ -113,10 +118,10 @@ func zzSNConfigured(i int) string {
 // the name the ClientHello generators read for the server_name extension (HandshakeConfig.ServerName) is
 // empty for IP literals (RFC 6066 section 3) and the configured name otherwise [cfg_no_sni_for_ip_literal].
 //
-//symgo:entry covers=dns_name,ipv4_literal,ipv6_literal,empty_name,dtls12,dtls13
+//symgo:entry covers=dns_name,ipv4_literal,ipv6_literal,empty_name,long_name,dtls12,dtls13
 func zzCfgServerNameForVerification() {
 	zzSNCalls, zzSNName, zzSNRoots = 0, "", nil
-	kind := zzsymChoice("configured_name", 4)
+	kind := zzsymChoice("configured_name", 6)
 	name := zzSNConfigured(kind)
 	roots := new(x509.CertPool)
 	cfg := &dtlsConfig{LoggerFactory: zzSNLogFactory{}}
@@ -129,7 +134,7 @@ func zzCfgServerNameForVerification() {
 	// SNI: flight1Generate / flight3Generate offer server_name iff len(cfg.ServerName) > 0, with that value
 	if kind == 1 || kind == 2 {
 		zzsymAssert(hc.ServerName == "", "cfg_no_sni_for_ip_literal")
-	} else {
+	} else if kind != 5 { // whether a name too long for DNS is offered as SNI is not the property's business
 		zzsymAssert(hc.ServerName == name, "cfg_sni_is_configured_dns_name")
 	}
 
@@ -162,7 +167,9 @@ func zzCfgServerNameForVerification() {
 		zzsymCover("ipv4_literal")
 	case 2:
 		zzsymCover("ipv6_literal")
-	default:
+	case 3:
 		zzsymCover("empty_name")
+	default:
+		zzsymCover("long_name")
 	}
 }
